@@ -186,6 +186,8 @@ class C11(Check):
         self._hist = {"kind": {}, "argv_len": {}, "outcome": {}, "outcome_malformed": {}, "classes": {}, "split_outcome": {},
                       "real_compiler": {}, "outcome_real_compiler": {}}
         self._seen = set()
+        self._in_safe = {}
+        self._safe_count = {True: 0, False: 0}
         self._cct = _compiler_tables()
         self._py_coq_spec_mismatch = []
 
@@ -472,7 +474,7 @@ class C11(Check):
             return None            # compiler-specific tables are not modelled here (C12)
         if case["kind"] == "split":
             return ans
-        res, _s, cmd, sp = ans
+        res, _s, cmd, sp, _safe = ans
         res = list(res)
         if res[0] == "Ok":
             res[4] = " ".join(res[4])
@@ -488,6 +490,11 @@ class C11(Check):
         py = scan_py(argv)
         if ans is not None and ans not in ("PARSEERROR", "BADCASE", "UNKNOWN"):
             coq = ans[1]
+            # the proved domain: inside it I = S is a theorem about M, so a failure there can never be a known finding
+            if case.get("dom"):
+                self._in_safe[self.key(case)] = bool(ans[4])
+                if case["kind"] == "argv":
+                    self._safe_count[bool(ans[4])] += 1
             if coq != py and len(self._py_coq_spec_mismatch) < 3:
                 self._py_coq_spec_mismatch.append((argv, coq, py))
             lists = coq
@@ -518,6 +525,8 @@ class C11(Check):
         if case["kind"] not in ("argv", "cc"):
             return None
         is_cc = case["kind"] == "cc"
+        if not is_cc and self._in_safe.get(self.key(case)):
+            return None            # inside the proved domain: not attributable to any finding
         const = self._cct[case["cc"]][0] if is_cc else ()
         argv = self.argv(case)
         inst = class_instances(argv, const)
@@ -620,7 +629,9 @@ class C11(Check):
         return problems[:3]
 
     def extra_coverage(self):
-        return {"input_distribution": self._hist, "spec_oracle_gcc": getattr(self, "_oracle", None), "catalogue_entries": len(CATALOGUE),
+        return {"input_distribution": self._hist, "spec_oracle_gcc": getattr(self, "_oracle", None),
+                "in_domain_cases_inside_proved_domain_safe": self._safe_count[True],
+                "in_domain_cases_outside_safe": self._safe_count[False], "catalogue_entries": len(CATALOGUE),
                 "exhaustive": "all vectors of <= %d items over %d reduced items; shlex.split over all strings of length <= %d over 7 letters"
                               % (3 if self.tier == "quick" else 4, len(SMALL_ITEMS), 4 if self.tier == "quick" else 6)}
 
